@@ -214,6 +214,53 @@ pub fn one_c07(prop: &str, c: &Case, rep: &mut Report) {
             rep.violations.push(Violation::new(prop, "c07.get_cell_at", format!("get_cell_at({i}) is {} but mask[{i}] = {}", if mask[i] { "None" } else { "Some" }, mask[i]), Some(c), json!({"cell": i})));
         }
     }
+    // a partial construction is a function of its arguments only: repeat it after partial constructions of the SAME
+    // positions with another dimensionality / periodic flag / mask on the same thread (every 8th input)
+    if c.hash() % 8 == 0 {
+        let other_dim = if c.dim == 3 { 2 } else { 3 };
+        let mut v1 = c.clone();
+        v1.dim = other_dim;
+        let mut v2 = c.clone();
+        v2.periodic = !c.periodic;
+        let mut v3 = c.clone();
+        v3.mask = Some(mask.iter().map(|b| !b).collect());
+        let d0 = digest_voronoi(&part).0;
+        let again = guarded(|| {
+            let mut out = vec![];
+            // an unrelated partial construction first, so that whatever state a previous call left behind belongs to
+            // other positions; then the variant; then the original again
+            let evict = Case {
+                family: "evict".into(),
+                dim: 3,
+                periodic: false,
+                anchor: DVec3::ZERO,
+                width: DVec3::ONE,
+                pts: vec![DVec3::new(0.25, 0.5, 0.5), DVec3::new(0.75, 0.4, 0.6), DVec3::new(0.5, 0.9, 0.1)],
+                mask: Some(vec![true, false, true]),
+                origin: "evict".into(),
+            };
+            for v in [&v1, &v2, &v3] {
+                let _ = (build_direct(&evict), build_integrator(&evict));
+                if v.validity().is_ok() {
+                    let _ = std::panic::catch_unwind(std::panic::AssertUnwindSafe(|| (build_direct(v), build_integrator(v))));
+                }
+                out.push((digest_voronoi(&build_direct(c)).0, digest_voronoi(&Voronoi::from(&build_integrator(c))).0));
+            }
+            out
+        });
+        match again {
+            Err(p) => rep.violations.push(panic_violation(prop, c, &p)),
+            Ok(out) => {
+                rep.count("partial_builds_repeated_after_other_calls", out.len() as u64);
+                for (k, (a1, a2)) in out.iter().enumerate() {
+                    if *a1 != d0 || *a2 != d0 {
+                        rep.violations.push(Violation::new(prop, "c07.partial_build_depends_on_history", format!("the partial construction repeated after a partial construction of the same positions with {} differs bitwise from the first one", ["another dimensionality", "the other periodic flag", "the complementary mask"][k]), Some(c), json!({"after": k})));
+                        break;
+                    }
+                }
+            }
+        }
+    }
     rep.count("masks_checked", 1);
     note_case(rep, c, nsel > 0 && nsel < n);
 }
